@@ -255,6 +255,21 @@ var oracles = map[string]oracle{
 	if got != -Compare(b, a) { violated(t, "Compare is not antisymmetric on %%v %%v", a, b) }
 `, fld(in, "t1", "Seconds"), fld(in, "t1", "Nanos"), fld(in, "t2", "Seconds"), fld(in, "t2", "Nanos"))
 	}},
+	"anyutil.Unpack": {"anyutil", "anyutil", `"google.golang.org/protobuf/reflect/protoregistry"; "google.golang.org/protobuf/types/known/anypb"`, func(in map[string]concVal) string {
+		return `
+	// hand-written concretiser for the type-assertion obligation: a URL naming a non-message descriptor, absent from the type registry
+	for _, url := range []string{"/google.protobuf.FieldDescriptorProto.Type", "/google.protobuf.FieldDescriptorProto.Label", "google.protobuf.FieldDescriptorProto.Type"} {
+		func() {
+			defer func() {
+				if r := recover(); r != nil {
+					violated(t, "Unpack panicked for type URL %q: %v", url, r)
+				}
+			}()
+			_, _ = Unpack(&anypb.Any{TypeUrl: url}, protoregistry.GlobalFiles, &protoregistry.Types{})
+		}()
+	}
+`
+	}},
 	"runtime.Sov": {"runtime", "runtime", `"google.golang.org/protobuf/encoding/protowire"`, func(in map[string]concVal) string {
 		return fmt.Sprintf(`
 	x := uint64(%s)
